@@ -254,10 +254,13 @@ class Grid(col.MutableSequence):
         '''
         Reindex the grid if a user, update directly an id of a row
         '''
-        self._index = {}
+        # Build the new index aside and publish it in one step: lookups made
+        # meanwhile (filters running on other threads) never see it half-built.
+        index = {}
         for item in self._row:
             if "id" in item:
-                self._index[str(item["id"])] = item
+                index[str(item["id"])] = item
+        self._index = index
 
     # FIXME
     def extend(self, values):
